@@ -62,6 +62,7 @@ DIAG_KINDS = [
     (r"does not fit in 64 bits", "evaluation", 4),
     (r"cannot apply operation|unknown function|expected \d+ arguments|could not interpolate", "evaluation", 4),
     (r"does not evaluate to an integer", "not_an_integer", 5),
+    (r"must lie between 0 and \$10000|relocated address would be negative", "pc_out_of_range", 8),
     (r"cyclic import", "cyclic_import", 6),
     (r"did not converge after", "no_convergence", 7),
     (r"unknown identifier", "unknown_identifier", 8),
@@ -205,24 +206,6 @@ class Known:
                 return True
         return False
 
-    def pc_out_of_range(self, files):
-        """some `* =` value v, segment start s and segment pc t of the program (defaults: the default segment) satisfy
-        Known_pc_out_of_range v s t; a value that cannot be evaluated from the text alone counts as unknown = possible"""
-        star = self.literal_values(files, r"\*\s*=\s*([^\n{}]+)")
-        # the branch arm uses the branch target as the pc while no segment exists
-        # (evaluated as pass 0 does: constants known, `*` = 0, labels unknown -> not evaluable -> nothing emitted, no panic)
-        star += [v for v in self.literal_values(files, r"\b(?:bcc|bcs|beq|bmi|bne|bpl|bvc|bvs)\s+([^\n{}/]+)", env=self.const_env(files)) if v is not None]
-        starts = self.literal_values(files, r"\bstart\s*=\s*([^\n{}]+?)(?=\s+(?:pc|write|bank|name)\s*=|\s*\}|\n)")
-        pcs = self.literal_values(files, r"\bpc\s*=\s*([^\n{}]+?)(?=\s+(?:start|write|bank|name)\s*=|\s*\}|\n)")
-        if None in star or None in starts or None in pcs:
-            return True
-        segs = [(PC0, PC0)] + [(s0, s0) for s0 in starts] + [(s0, t) for s0 in (starts or [0]) for t in pcs]
-        for (s0, t) in segs:
-            for v in (star or [s0]):
-                if self.model.call({"cmd": "known", "pc": str(v), "initial": str(s0), "target": str(t)}).get("pc"):
-                    return True
-        return False
-
     def bank_huge(self, files):
         for v in self.literal_values(files, r"\bsize\s*=\s*([^\n{}]+?)(?=\s+(?:fill|name|filename|create-segment)\s*=|\s*\}|\n)"):
             if v is None or self.model.call({"cmd": "bank", "size": str(v), "len": "0", "fill": True}).get("known"):
@@ -242,8 +225,6 @@ class Known:
             return "Known_loop_count_huge"
         if kind == "hang" and self.bank_huge(files):
             return "Known_bank_size_huge"
-        if kind == "panic" and self.pc_out_of_range(files):
-            return "Known_pc_out_of_range"
         return None
 
 
@@ -437,7 +418,7 @@ class Run:
             x = reply.get(st)
             if not x or "panic" in x or x.get("stop") or not x.get("passes"):
                 continue
-            trace = [{"ne": p["ne"], "e": str(int(p["e"], 16)), "nu": p["nu"], "u": str(int(p["u"], 16)), "added": p["added"], "nseg": p["nseg"]}
+            trace = [{"ne": p["ne"], "e": str(int(p["e"], 16)), "nu": p["nu"], "u": str(int(p["u"], 16)), "added": p["added"], "changed": p.get("changed", 0), "nseg": p["nseg"]}
                      for p in x["passes"]]
             m = self.model.call({"cmd": "replay", "trace": trace})
             msgs = [e["msg"] for e in x.get("errors", [])]
@@ -509,7 +490,8 @@ class Run:
         if r.get("r") == "panic":
             return "panic"
         if r.get("r") == "diag":
-            return "diag:" + {1: "align_not_positive", 2: "name_with_period", 3: "segment_out_of_range", 4: "evaluation", 5: "not_an_integer"}[int(r["d"])]
+            return "diag:" + {1: "align_not_positive", 2: "name_with_period", 3: "segment_out_of_range", 4: "evaluation", 5: "not_an_integer",
+                               8: "pc_out_of_range"}[int(r["d"])]
         if r.get("r") in ("emitted", "nothing"):
             return "ok"
         return "noparse"
@@ -567,7 +549,8 @@ class Run:
         rng.shuffle(combos)
         for (s, p) in combos[: (200 if thorough else 40)]:
             prog = '.define segment { name = "a" start = %s pc = %s }\nnop\n' % (lit(s), lit(p))
-            pred = self.stmt_prediction("pc", lit(s), initial=s % 2 ** 64, target=p % 2 ** 64)
+            r = self.model.call({"cmd": "segment", "start": str(s), "pc": str(p)})
+            pred = "panic" if r["r"] == "panic" else ("diag:" + {3: "segment_out_of_range", 8: "pc_out_of_range"}[int(r["d"])] if r["r"] == "diag" else "ok")
             reply, fails = self.case("sweep_segment", {"main.asm": prog})
             self.expect("sweep_segment", {"main.asm": prog}, reply, fails, pred, "segment start=%d pc=%d then nop" % (s, p))
         # ---- bank options size / fill: the model predicts diagnostic / padding size; beyond 2^30 bytes of padding it is the known finding
@@ -814,7 +797,7 @@ class Run:
 def run(chk):
     R = Run(chk)
     thorough = chk.tier == "thorough"
-    common.translate_for(chk, ["passloop", "c06sites", "evaluator"])
+    common.translate_for(chk, ["c06loop", "c06sites", "evaluator"])
     chk.proof = common.prove("C06")
     R.child = Child(common.build_probe("harness_c06", "c06probe"))
     R.model = Proc([common.build_model("c06")])
@@ -847,7 +830,7 @@ def run(chk):
         "Known_* classification of generated / mutated inputs extracts macro graphs and `* =` / start / pc / .loop arguments from the text in Python, the predicates themselves are the extracted Coq definitions",
         "a hang verdict is only given by hook H1 (more than %d distinct passes) or by a watchdog >= 400x the normal request time (`.loop` with 2^63-1 iterations)" % CAP_WATCH,
     ]
-    return chk.finish(extra_trusted=["translate/t_passloop.py, translate/t_c06sites.py, translate/t_evaluator.py (recognise guarded / unguarded shapes)",
+    return chk.finish(extra_trusted=["translate/t_c06loop.py, translate/t_c06sites.py, translate/t_evaluator.py (recognise guarded / unguarded shapes)",
                                      "hook H1 (mos-core/src/codegen/mod.rs, cfg mos_verif): per-pass digests; harness_c06/c06probe; extract/driver_c06.ml"])
 
 
